@@ -38,9 +38,128 @@ Arguments bs s%string.
 (* ---- AuthConfig ---- *)
 Inductive saddr :=
 | SAEmpty                 (* ServerAddress == "" *)
+| SAText (t : str)        (* the ServerAddress text itself; [parse_url_host] is what url.Parse(t).Host yields *)
 | SAUrl (host : str)      (* "<scheme>://<host>[/<path>]": url.Parse(..).Host = host (host incl. ":port") *)
 | SABare                  (* "<name>[/<path>]" without scheme: url.Parse succeeds, Host = "" *)
 | SABad.                  (* url.Parse fails *)
+
+(* ---- net/url.Parse(text).Host, for texts of printable ASCII (bytes >= 0x80 are not generated) ----
+   Follows url.Parse step by step: control bytes, fragment, scheme, query, opaque / first-segment-colon rule,
+   authority (userinfo up to the LAST '@', host with optional bracketed literal and optional numeric port),
+   validation of host characters and of the escapes in path and fragment.  The host is returned VERBATIM: no case
+   folding, no removal of a default port, of a trailing dot or of brackets.  None = Parse returns an error. *)
+Definition is_alpha (c : N) : bool := ((65 <=? c) && (c <=? 90) || (97 <=? c) && (c <=? 122))%N.
+Definition is_digit (c : N) : bool := ((48 <=? c) && (c <=? 57))%N.
+Definition is_hex (c : N) : bool := (is_digit c || (65 <=? c) && (c <=? 70) || (97 <=? c) && (c <=? 102))%N.
+Definition is_ctl (c : N) : bool := ((c <? 32) || (c =? 127))%N.
+Definition mem_byte (c : N) (l : str) : bool := existsb (N.eqb c) l.
+
+(* split at the first byte satisfying p: (before, Some (that byte :: after)) *)
+Fixpoint cut_at (p : N -> bool) (s : str) : str * option str :=
+  match s with
+  | [] => ([], None)
+  | c :: t => if p c then ([], Some s) else let '(a, b) := cut_at p t in (c :: a, b)
+  end.
+(* split at the LAST occurrence of byte x: Some (before, after) *)
+Fixpoint cut_last (x : N) (s : str) : option (str * str) :=
+  match s with
+  | [] => None
+  | c :: t =>
+      match cut_last x t with
+      | Some (a, b) => Some (c :: a, b)
+      | None => if N.eqb c x then Some ([], t) else None
+      end
+  end.
+Fixpoint starts_with (pre s : str) : bool :=
+  match pre, s with
+  | [], _ => true
+  | x :: p, y :: t => N.eqb x y && starts_with p t
+  | _, [] => false
+  end.
+
+(* every '%' is followed by two hex digits *)
+Fixpoint escapes_ok (s : str) : bool :=
+  match s with
+  | [] => true
+  | c :: t =>
+      if N.eqb c 37 then
+        match t with
+        | a :: b :: t' => is_hex a && is_hex b && escapes_ok t'
+        | _ => false
+        end
+      else escapes_ok t
+  end.
+
+(* getScheme: Some (scheme present?, rest) or None = "missing protocol scheme" *)
+Fixpoint get_scheme_from (i : nat) (s whole : str) : option (bool * str) :=
+  match s with
+  | [] => Some (false, whole)
+  | c :: t =>
+      if is_alpha c then get_scheme_from (S i) t whole
+      else if is_digit c || mem_byte c [43; 45; 46]%N then
+        match i with O => Some (false, whole) | _ => get_scheme_from (S i) t whole end
+      else if N.eqb c 58 then
+        match i with O => None | _ => Some (true, t) end
+      else Some (false, whole)
+  end.
+Definition get_scheme (s : str) := get_scheme_from 0 s s.
+
+(* validOptionalPort: "" or ":" digits *)
+Definition valid_optional_port (p : str) : bool :=
+  match p with
+  | [] => true
+  | c :: t => N.eqb c 58 && forallb is_digit t
+  end.
+
+(* bytes that may appear unescaped in a host (shouldEscape(c, encodeHost) = false) *)
+Definition host_char_ok (c : N) : bool :=
+  is_alpha c || is_digit c
+  || mem_byte c [33; 36; 38; 39; 40; 41; 42; 43; 44; 59; 61; 58; 91; 93; 60; 62; 34; 45; 95; 46; 126]%N.
+Definition userinfo_char_ok (c : N) : bool :=
+  is_alpha c || is_digit c
+  || mem_byte c [45; 46; 95; 58; 126; 33; 36; 38; 39; 40; 41; 42; 43; 44; 59; 61; 37; 64]%N.
+
+Definition parse_host (h : str) : option str :=
+  let port_ok :=
+    match h with
+    | 91 :: _ =>   (* '[' : the port follows the last ']' *)
+        match cut_last 93 h with
+        | Some (_, after) => valid_optional_port after
+        | None => false
+        end
+    | _ =>
+        match cut_last 58 h with
+        | Some (_, after) => forallb is_digit after
+        | None => true
+        end
+    end%N in
+  if port_ok && forallb host_char_ok h then Some h else None.
+
+Definition parse_authority (a : str) : option str :=
+  match cut_last 64 a with
+  | Some (ui, h) => if forallb userinfo_char_ok ui then parse_host h else None
+  | None => parse_host a
+  end.
+
+Definition parse_url_host (t : str) : option str :=
+  if existsb is_ctl t then None else
+  let '(u, frag) := cut_at (N.eqb 35) t in
+  if negb (match frag with Some f => escapes_ok f | None => true end) then None else
+  match get_scheme u with
+  | None => None
+  | Some (has_scheme, rest0) =>
+      let '(rest, _) := cut_at (N.eqb 63) rest0 in          (* the query is not validated *)
+      if negb (starts_with [47]%N rest) && has_scheme then Some []   (* opaque *)
+      else if negb (starts_with [47]%N rest) && negb has_scheme
+              && mem_byte 58 (fst (cut_at (N.eqb 47) rest)) then None  (* first path segment cannot contain colon *)
+      else if (has_scheme || negb (starts_with [47; 47; 47]%N rest)) && starts_with [47; 47]%N rest then
+        let '(authority, path) := cut_at (N.eqb 47) (skipn 2 rest) in
+        match parse_authority authority with
+        | None => None
+        | Some h => if match path with Some p => escapes_ok p | None => true end then Some h else None
+        end
+      else if escapes_ok rest then Some [] else None
+  end.
 
 Inductive b64 :=
 | B64Bad                  (* Auth is not valid standard base64 *)
@@ -50,10 +169,15 @@ Record auth := mkAuth {
   a_sa : saddr; a_user : str; a_pass : str; a_token : str; a_b64 : b64
 }.
 
+(* ServerAddress == "" *)
+Definition sa_is_empty (sa : saddr) : bool :=
+  match sa with SAEmpty => true | SAText [] => true | _ => false end.
+
 (* url.Parse(ServerAddress): None = error, Some h = .Host *)
 Definition url_host (sa : saddr) : option str :=
   match sa with
   | SAEmpty => Some []
+  | SAText t => parse_url_host t
   | SAUrl h => Some h
   | SABare => Some []
   | SABad => None
@@ -117,14 +241,12 @@ Definition parse_auth (oa : option auth) (host : str) : cres :=
   match oa with
   | None => empty_cred
   | Some a =>
-      match a_sa a with
-      | SAEmpty => cred_of a
-      | sa =>
-          match url_host sa with
-          | None => CErr
-          | Some h => if str_eqb host h then cred_of a else empty_cred
-          end
-      end
+      if sa_is_empty (a_sa a) then cred_of a
+      else
+        match url_host (a_sa a) with
+        | None => CErr
+        | Some h => if str_eqb host h then cred_of a else empty_cred
+        end
   end.
 
 (* ---- keychain ---- *)
